@@ -443,7 +443,27 @@ def case_strategy(thorough):
         "kind": st.just("data"), "decl": st.just(d), "mode": st.none(), "mode_via": st.just("class"), "shared_defs": st.just(True),
         "inputs": st.lists(st.fixed_dictionaries({"t": st.just("dict"), "v": st.just([["a", {"t": "dict", "v": [["p", 1]]}], ["b", {"t": "dict", "v": [["p", "s"]]}],
                                                                                      ["c", {"t": "list", "v": [{"t": "dict", "v": [["p", "3"]]}]}]])}), min_size=1, max_size=1)}))
-    return st.one_of(types, types, types, types, types, types, data, data, data, data, data, data, data, data, data, data, data, data, twins)
+    # numbers whose JSON form is delicate (many digits, tiny / large exponents, negative zero, integral decimals) for every
+    # position a number can take in a document
+    dec, flt = {"k": "leaf", "o": "decimal"}, {"k": "leaf", "o": "float"}
+    num_types = st.sampled_from([dec, dec, flt, {"k": "list", "a": dec}, {"k": "opt", "a": dec, "m": "annotate"},
+                                 {"k": "dict", "key": {"k": "leaf", "o": "str"}, "val": dec}, {"k": "con", "o": "decimal", "c": {"ge": -10}},
+                                 {"k": "union", "a": [dec, {"k": "leaf", "o": "none"}], "m": "annotate"}, {"k": "tuple", "a": [dec, flt]}])
+    torture = ["0.12345678901234567890", "2.000000000000000000001", "-1.2345678901234567890123", "123456.7890123456789", "1E-7", "1E-13", "0.1", "1.10",
+               "-0", "-0.0", "5E+2", "1E+15", "9007199254740991", "9007199254740993", "0.30000000000000004", "1.7976931348623157E+308", "4.9E-324", "7.00000000000009"]
+    dvals = st.sampled_from(torture).flatmap(lambda t: st.sampled_from([{"t": "decimal", "v": t}, t]))
+
+    def shaped(t):
+        k = t["k"]
+        if k == "list":
+            return st.lists(dvals, min_size=1, max_size=3).map(lambda v: {"t": "list", "v": v})
+        if k == "dict":
+            return st.lists(dvals, min_size=1, max_size=2).map(lambda v: {"t": "dict", "v": [[f"k{i}", e] for i, e in enumerate(v)]})
+        if k == "tuple":
+            return st.tuples(dvals, dvals).map(lambda v: {"t": "list", "v": list(v)})
+        return dvals
+    numbers = num_types.flatmap(lambda t: st.fixed_dictionaries({"kind": st.just("type"), "type": st.just(t), "inputs": st.lists(shaped(t), min_size=2, max_size=4)}))
+    return st.one_of(numbers, numbers, types, types, types, types, types, types, data, data, data, data, data, data, data, data, data, data, data, data, twins)
 
 
 def campaign(ctx):
